@@ -52,6 +52,19 @@ DIRECTED = {
         op(o="release", id=1, out="exc"), IDLE, op(o="hstart", kind="flush", re=True), IDLE,
         op(o="release_cb", id=0, which="ecb"), IDLE, op(o="release_cb", id=1, which="ecb"), IDLE,
         op(o="cancel", ids=[0]), op(o="cancel", ids=[1]), DRAIN),
+    # ... and a second flush that begins while the first is blocked on a slow end callback, one task having settled completely
+    # before it: when the second returns, that task is forgotten (C13.forget; a re-entrancy guard that makes it return at once)
+    "flush_overlapping_settled": S(
+        {"cls": "TaskPool", "size": 3, "reqs": [{"kind": "apply", "num": 2, "ecb": "async"}]},
+        op(o="spawn", t=0), IDLE, op(o="release", id=0, out="ret"), op(o="release", id=1, out="ret"), IDLE,
+        op(o="release_cb", id=1, which="ecb"), IDLE, op(o="hstart", kind="flush", re=True), IDLE,
+        op(o="hstart", kind="flush", re=True), IDLE, {"c": "probe", "k": 2}, op(o="cancel", ids=[1]),
+        op(o="release_cb", id=0, which="ecb"), IDLE, op(o="cancel", ids=[1]), op(o="cancel", ids=[0]), DRAIN),
+    "flush_overlapping_settled_plain": S(
+        {"cls": "TaskPool", "size": 3, "reqs": [{"kind": "apply", "num": 1, "ecb": "async"}, {"kind": "apply", "num": 1}]},
+        op(o="spawn", t=0), op(o="spawn", t=1), IDLE, op(o="release", id=0, out="ret"), op(o="release", id=1, out="exc"), IDLE,
+        op(o="hstart", kind="flush", re=True), IDLE, op(o="hstart", kind="flush", re=True), IDLE,
+        {"c": "probe", "k": 2}, op(o="release_cb", id=0, which="ecb"), IDLE, DRAIN),
     # plain callbacks that return a future (some background work of the user's): called, never awaited (C02/C03)
     "callback_returns_future": S(
         {"cls": "TaskPool", "size": 2, "reqs": [{"kind": "apply", "num": 2, "ecb": "sfut", "ccb": "sfut"},
